@@ -5,7 +5,10 @@ Inductive q := Q (ssid : list N) (from until : Z) (start : bytes) (limit : N) (r
 Inductive case :=
 | CStore (disk : bool) (now : Z) (retain : N) (stored : list msg) (queries : list q)
 (* page 1 at time now1, continuation pages at time now2 (some messages have expired in between) *)
-| CLapse (now1 now2 : Z) (retain : N) (stored : list msg) (queries1 queries2 : list q).
+| CLapse (now1 now2 : Z) (retain : N) (stored : list msg) (queries1 queries2 : list q)
+(* n messages stored; the payloads a history request returns as a whole, and page by page (two per page,
+   each page continued from the oldest id of the one before) *)
+| CPages (n : N) (full : list bytes) (pages : list (list bytes)).
 
 Definition msg_eqb (a b : msg) : bool :=
   bytes_eqb (m_id a) (m_id b) && bytes_eqb (m_chan a) (m_chan b) && bytes_eqb (m_payload a) (m_payload b)
@@ -85,6 +88,12 @@ Definition check (c : case) : N :=
   | CStore disk now retain stored queries =>
     let s := fold_left (store_msg retain) stored [] in
     fold_left (fun acc x => acc |+| check_q s now x) queries 0
+  | CPages n full pages =>
+    let all := concat pages in
+    let sub a b := forallb (fun x => existsb (bytes_eqb x) b) a in
+    (* the whole is everything stored; the pages are disjoint and together the whole *)
+    bit ((len full =? n) && (len all =? len full) && sub all full && sub full all
+         && (fix nodup (l : list bytes) := match l with [] => true | x :: r => negb (existsb (bytes_eqb x) r) && nodup r end) all) 2
   | CLapse now1 now2 retain stored queries1 queries2 =>
     let s := fold_left (store_msg retain) stored [] in
     fold_left (fun acc x => acc |+| check_q_at s now1 now2 x) queries2
